@@ -1,6 +1,249 @@
-//! C04 — monitor not written yet.
-use crate::ctx::Ctx;
+//! C04 — honest runs always complete and track the ideal ledger exactly.
+//!
+//! Real customer stages against a real merchant, step by step; the oracle is the i128 ledger.
+//! Amounts are drawn relative to the *current* balances so that 0 and 2^63-1 are reached through
+//! payments, and out-of-range amounts are mixed in to observe the refusal path.
+
+use crate::ctx::{guard, Ctx};
+use crate::fixtures::{self, Merchant};
+use crate::props::util::*;
+use crate::refs::{ledger_apply, LedgerErr};
+use crate::session::{amount, new_channel_id, Sess, Stage};
+use rand_core::RngCore;
+use serde_json::json;
+use zkabacus_crypto::{Error, Verification};
+
+const MAXB: u64 = i64::MAX as u64;
+
+pub fn initial_lattice() -> Vec<u64> {
+    vec![0, 1, 2, 1 << 31, 1 << 32, 1 << 62, MAXB - 1, MAXB]
+}
+
+/// amount candidates relative to the current balances
+pub fn candidate_amounts(cust: u64, merch: u64, rng: &mut impl RngCore) -> Vec<i64> {
+    let mut v: Vec<i128> = vec![
+        0,
+        1,
+        -1,
+        cust as i128,
+        -(merch as i128),
+        cust as i128 + 1,
+        -(merch as i128) - 1,
+        MAXB as i128,
+        -(MAXB as i128),
+        cust as i128 - 1,
+        -(merch as i128) + 1,
+        (MAXB - merch) as i128,      // makes the merchant balance exactly 2^63-1 (if the customer can afford it)
+        -((MAXB - cust) as i128),    // makes the customer balance exactly 2^63-1
+        (MAXB - merch) as i128 + 1,  // one too many
+        -((MAXB - cust) as i128) - 1,
+    ];
+    v.push((rng.next_u64() % (cust.saturating_add(1).max(1))) as i128);
+    v.push(-((rng.next_u64() % (merch.saturating_add(1).max(1))) as i128));
+    v.push((rng.next_u64() >> 1) as i128);
+    v.push(-((rng.next_u64() >> 1) as i128));
+    v.into_iter().filter(|a| a.unsigned_abs() <= MAXB as u128).map(|a| a as i64).collect()
+}
+
+pub fn check_close(c: &mut Ctx, s: &Sess, m: &Merchant, rng: &mut (impl RngCore + rand_core::CryptoRng), expect: (u64, u64), whence: &str) {
+    match s.stage.close_from_copy(rng) {
+        Err(e) => c.violation(&format!("C04 close-failed stage={}", s.stage.name()), json!({"error": e, "whence": whence})),
+        Ok(None) => {}
+        Ok(Some(cm)) => {
+            c.eval();
+            let got = (cm.customer_balance().into_inner(), cm.merchant_balance().into_inner());
+            let cid_ok = cm.channel_id().to_bytes() == s.cid.to_bytes();
+            let (sig, st) = cm.into_parts();
+            let ver = matches!(m.cfg.check_close_signature(sig, &st), Verification::Verified);
+            if got != expect || !cid_ok || !ver {
+                c.violation(
+                    &format!("C04 closing-message-wrong stage={}", s.stage.name()),
+                    json!({"whence": whence, "balances": [got.0.to_string(), got.1.to_string()], "ledger": [expect.0.to_string(), expect.1.to_string()],
+                           "channel_id_matches": cid_ok, "merchant_accepts": ver}),
+                );
+            } else {
+                c.count("closing_messages_checked", 1);
+            }
+        }
+    }
+}
+
+fn stage_balances_ok(c: &mut Ctx, s: &Sess, expect: (u64, u64), whence: &str) {
+    c.eval();
+    if s.stage.balances() != Some(expect) {
+        c.violation(
+            &format!("C04 balance-differs-from-ledger stage={}", s.stage.name()),
+            json!({"whence": whence, "reported": format!("{:?}", s.stage.balances()), "ledger": [expect.0.to_string(), expect.1.to_string()]}),
+        );
+    }
+}
+
+fn fail(c: &mut Ctx, step: &str, detail: String, ctxj: serde_json::Value) {
+    c.violation(&format!("C04 honest-step-failed step={}", step), json!({"error": detail, "context": ctxj}));
+}
+
+fn run_channel(c: &mut Ctx, m: &'static Merchant, name: &str, cust0: u64, merch0: u64, steps: usize) {
+    let mut rng = c.rng(name);
+    let ctxb = name.as_bytes().to_vec();
+    let info = json!({"initial": [cust0.to_string(), merch0.to_string()], "merchant": m.label});
+    let cid = new_channel_id(m, &mut rng, b"merchant-account", b"customer-account");
+    // establishment
+    let (mut s, proof) = match Sess::request(m, &mut rng, cid, cust0, merch0, &ctxb) {
+        Ok(x) => x,
+        Err(e) => return fail(c, "request", e, info),
+    };
+    stage_balances_ok(c, &s, (cust0, merch0), "requested");
+    let sig = match s.m_initialize(&mut rng, cust0, merch0, &proof, &ctxb) {
+        Ok(Some(x)) => x,
+        Ok(None) => return fail(c, "initialize", "merchant refused an honest establish proof".into(), info),
+        Err(e) => return fail(c, "initialize", e, info),
+    };
+    match s.c_complete(&sig) {
+        Ok(true) => {}
+        Ok(false) => return fail(c, "complete", "customer refused the honest closing signature".into(), info),
+        Err(e) => return fail(c, "complete", e, info),
+    }
+    stage_balances_ok(c, &s, (cust0, merch0), "inactive");
+    check_close(c, &s, m, &mut rng, (cust0, merch0), "inactive");
+    let tok = match s.m_activate(&mut rng) {
+        Ok(x) => x,
+        Err(e) => return fail(c, "activate", e, info),
+    };
+    match s.c_activate(&tok) {
+        Ok(true) => {}
+        Ok(false) => return fail(c, "activate", "customer refused the honest pay token".into(), info),
+        Err(e) => return fail(c, "activate", e, info),
+    }
+    stage_balances_ok(c, &s, (cust0, merch0), "ready");
+    check_close(c, &s, m, &mut rng, (cust0, merch0), "ready");
+    c.count("channels_established", 1);
+    let total = cust0 as u128 + merch0 as u128;
+    let mut hist: Vec<String> = vec![];
+    for step in 0..steps {
+        let (cust, merch) = s.ledger;
+        let cands = candidate_amounts(cust, merch, &mut rng);
+        let a = cands[(rng.next_u32() as usize) % cands.len()];
+        let pa = match amount(a) {
+            Ok(p) => p,
+            Err(_) => continue,
+        };
+        let expect = ledger_apply(cust, merch, a);
+        c.distinct(&format!("pay/{}/{}/{}", cust, merch, a));
+        let j = json!({"initial": [cust0.to_string(), merch0.to_string()], "step": step, "balances": [cust.to_string(), merch.to_string()], "amount": a.to_string(), "history": hist});
+        let before = s.stage.bytes();
+        let started = match s.c_start(&mut rng, pa, &ctxb) {
+            Ok(x) => x,
+            Err(e) => return fail(c, "start", e, j),
+        };
+        c.eval();
+        match (started, expect) {
+            (Err(e), Err(le)) => {
+                c.count("out_of_range_refused", 1);
+                let ok = match e {
+                    Error::InsufficientFunds => le.neg,
+                    Error::AmountTooLarge(_) => le.big,
+                };
+                if !ok {
+                    c.violation(
+                        &format!("C04 wrong-error class={}", crate::session::ledger_err_name(&le)),
+                        json!({"error": format!("{:?}", e), "context": j}),
+                    );
+                }
+                if s.stage.bytes() != before || s.stage.name() != "ready" {
+                    c.violation("C04 refusal-changed-state", json!({"context": j}));
+                }
+                hist.push(format!("{} refused", a));
+                continue;
+            }
+            (Err(e), Ok(_)) => {
+                return c.violation("C04 in-range-payment-refused", json!({"error": format!("{:?}", e), "context": j}));
+            }
+            (Ok(_), Err(le)) => {
+                return c.violation(
+                    &format!("C04 out-of-range-payment-started class={}", crate::session::ledger_err_name(&le)),
+                    json!({"context": j}),
+                );
+            }
+            (Ok((nonce, proof)), Ok((nc, nm))) => {
+                hist.push(a.to_string());
+                // while only started: pre-payment balances
+                stage_balances_ok(c, &s, (cust, merch), "started");
+                check_close(c, &s, m, &mut rng, (cust, merch), "started");
+                let sig = match s.m_allow(&mut rng, pa, &nonce, &proof, &ctxb) {
+                    Ok(Some(x)) => x,
+                    Ok(None) => return fail(c, "allow_payment", "merchant refused an honest pay proof".into(), j),
+                    Err(e) => return fail(c, "allow_payment", e, j),
+                };
+                let (pair, bf) = match s.c_lock(&sig) {
+                    Ok(Some(x)) => x,
+                    Ok(None) => return fail(c, "lock", "customer refused the honest closing signature".into(), j),
+                    Err(e) => return fail(c, "lock", e, j),
+                };
+                stage_balances_ok(c, &s, (nc, nm), "locked");
+                check_close(c, &s, m, &mut rng, (nc, nm), "locked");
+                let tok = match s.m_complete(&mut rng, &pair, &bf) {
+                    Ok(Some(x)) => x,
+                    Ok(None) => return fail(c, "complete_payment", "merchant refused the honest revocation pair".into(), j),
+                    Err(e) => return fail(c, "complete_payment", e, j),
+                };
+                match s.c_unlock(&tok) {
+                    Ok(true) => {}
+                    Ok(false) => return fail(c, "unlock", "customer refused the honest pay token".into(), j),
+                    Err(e) => return fail(c, "unlock", e, j),
+                }
+                stage_balances_ok(c, &s, (nc, nm), "ready");
+                check_close(c, &s, m, &mut rng, (nc, nm), "ready");
+                if nc as u128 + nm as u128 != total {
+                    c.violation("C04 total-not-conserved", json!({"context": j}));
+                }
+                c.count("payments_completed", 1);
+                if nc == 0 || nm == 0 {
+                    c.count("reached_zero_balance", 1);
+                }
+                if nc == MAXB || nm == MAXB {
+                    c.count("reached_2^63-1", 1);
+                }
+            }
+        }
+    }
+    c.sample(json!({"initial": [cust0.to_string(), merch0.to_string()], "steps": hist, "final": [s.ledger.0.to_string(), s.ledger.1.to_string()]}));
+}
 
 pub fn run(c: &mut Ctx) {
-    c.inconclusive("C04: monitor not written yet");
+    c.note("rule", json!("channels with initial balances from the lattice {0,1,2,2^31,2^32,2^62,2^63-2,2^63-1}^2 and random pairs; per channel a sequence of amounts drawn from boundary values relative to the current balances (0, +-1, +-balance, +-(balance+1), +-(2^63-1), exact fill-ups to 2^63-1 and one beyond, random); every step of establish and pay is executed and every stage's balances and closing message are compared with the i128 ledger. Distinct = distinct (balances-before, amount) pairs executed or refused."));
+    let lat = initial_lattice();
+    let mut pairs: Vec<(u64, u64)> = vec![];
+    for &a in &lat {
+        for &b in &lat {
+            pairs.push((a, b));
+        }
+    }
+    let nm = c.tier.pick(1usize, 3);
+    let steps = c.tier.pick(10usize, 30);
+    let nrand = c.tier.pick(24usize, 160);
+    for mi in 0..nm {
+        let m = match fixtures::merchant(c.seed, &format!("m{}", mi)) {
+            Ok(m) => m,
+            Err(e) => return c.inconclusive(&e),
+        };
+        let mut all = pairs.clone();
+        let mut rng = c.rng(&format!("pairs/{}", mi));
+        for _ in 0..nrand {
+            all.push((shaped_u64(&mut rng) & MAXB, shaped_u64(&mut rng) & MAXB));
+        }
+        for (i, (cust, merch)) in all.into_iter().enumerate() {
+            let name = format!("m{}/channel{}/{}-{}", mi, i, cust, merch);
+            c.case(&name, |c| {
+                let r = guard(|| run_channel(c, m, &name, cust, merch, steps));
+                if let Err(p) = r {
+                    c.violation(
+                        &format!("C04 panic-in-honest-run loc={}", repo_rel(&p.location)),
+                        json!({"panic": p.message, "initial": [cust.to_string(), merch.to_string()]}),
+                    );
+                }
+            });
+        }
+    }
+    let _ = LedgerErr { neg: false, big: false };
+    let _ = Stage::None;
 }
